@@ -64,6 +64,10 @@ def units(tier):
                 us.append(dict(h="other_prog", prog=p, line=li, kind="semi", std=std, sym=holes[rot % len(holes)] if holes else None, cost=2))
             us.append(dict(h="other_prog", prog=p, line=li, kind="indent", std=std, sym=None, cost=1))
             us.append(dict(h="other_prog", prog=p, line=li, kind="case", std=std, sym=None, cost=3))
+    # reader kernel: statements joined by ';' on one line (with a trailing comment) are the same
+    # statements as on separate lines, for every text over quotes, '!', ';', a letter
+    for n in ((3, 4, 5, 6) if q else (3, 4, 5, 6, 7)):
+        us.append(dict(h="k_join", n=n, cost=n))
     return us
 
 
@@ -103,6 +107,53 @@ def _shape_nocomment(t):
             return [sh(c) for c in node]
         return node
     return sh(t)
+
+
+def k_join(ctx):
+    """'a = <text>' where the text may contain ';' and '!': the reader's statements are the pieces
+    between the ';' outside character context, up to the first '!' outside character context"""
+    from fparser.common.readfortran import FortranStringReader, Comment as RComment
+    n = ctx.p["n"]
+    C.reset()          # the reader's memo must not carry entries of earlier paths
+    s = ctx.chars("s", n, "'\"!a;")
+    q = None
+    pieces = []
+    start = 0
+    cut = None
+    for i in range(n):
+        c = s[i]
+        if q is None:
+            if c == "'":
+                q = "'"
+            elif c == '"':
+                q = '"'
+            elif c == ";":
+                pieces.append(s[start:i])
+                start = i + 1
+            elif c == "!":
+                cut = i
+                break
+        elif c == q:
+            q = None
+    ctx.assume(q is None or cut is not None)
+    if q is not None:
+        return
+    pieces.append(s[start:(n if cut is None else cut)])
+    src = "a = " + s + "\nb = 1\n"
+    ctx.observe("src", src)
+    got = [it.line for it in FortranStringReader(src, ignore_comments=True)]
+    ctx.observe("got", got)
+    want = []
+    for k, pc in enumerate(pieces):
+        t = (("a = " + pc) if k == 0 else pc).strip(" ")
+        if len(t) > 0:
+            want.append(t)
+    want.append("b = 1")
+    ctx.check(len(got) == len(want), "a line with ';' yields %d statements, the same statements on separate lines are %d" % (len(got), len(want)))
+    if len(got) != len(want):
+        return
+    for g, w in zip(got, want):
+        ctx.check((g == w) if len(g) == len(w) else False, "statement text differs between the ';' layout and separate lines")
 
 
 def multi_prog(ctx):
